@@ -28,7 +28,7 @@ PROP_ID = 'C11'
 LEVEL = 'exploration'
 # budget of the Hypothesis part (user expressions / odd names); the
 # exhaustive default-rule part is not budgeted
-BUDGET = {'quick': 1600, 'thorough': 40000}
+BUDGET = {'quick': 1200, 'thorough': 40000}
 EXHAUSTIVE = {'quick': True, 'thorough': True}
 MANIFEST = {
     'engine': 'P',
@@ -272,7 +272,6 @@ def _last_wins(done, outputs):
 def check_case(case, ctx: Ctx, tdef=None) -> CaseResult:
     from cylc.flow.exceptions import CylcError
     from cylc.flow.parsec.exceptions import ParsecError
-    from cylc.flow.task_outputs import TaskOutputs
     from vf.cylcutil import load_config
 
     customs = [list(c) for c in case['customs']]
@@ -280,8 +279,6 @@ def check_case(case, ctx: Ctx, tdef=None) -> CaseResult:
     tree = case.get('expr')
     names = [n for n, _ in customs]
     outputs = list(STD_OUTPUTS) + names
-    msg_of = {o: o for o in STD_OUTPUTS}
-    msg_of.update({n: m for n, m in customs})
     cvs = [compvar(o) for o in outputs]
     collide = len(set(cvs)) < len(cvs)
     odd = any(not _is_identifier(compvar(n)) for n in names)
